@@ -553,7 +553,7 @@ func (s *shard) run(r *ev.Run, w *world, deadline time.Time) {
 		if ok && len(hist) == s.depth && r.WantSample() && s.alpha[hist[len(hist)-1]].typ == opCallback {
 			r.Sample(map[string]any{"send_logs": s.sendLogs, "history": names(hist)})
 		}
-		return explore.StepResult{Key: m.key(), Enabled: s.enabled(m), OK: ok}
+		return explore.StepResult{Key: m.key() + implKey(w), Enabled: s.enabled(m), OK: ok}
 	})
 	r.AddStates(b.States, b.Transitions, b.Transitions)
 	tag := fmt.Sprintf("bfs/%s/sendlogs=%v/caps=%d,%d", kinds[s.focus].name, s.sendLogs, s.capOut[0], s.capOut[1])
@@ -564,4 +564,32 @@ func (s *shard) run(r *ev.Run, w *world, deadline time.Time) {
 	if b.Capped {
 		r.NotExhaustive(fmt.Sprintf("%s: history search stopped by the internal deadline after depth %d of %d", tag, b.Depth, s.depth))
 	}
+}
+
+// implKey: the shape of the implementation's own bookkeeping, appended to the model key.
+// Per agent: for every entry of the outstanding-request list the position of the first
+// entry with the same id (0,1,2,.. as long as no id is listed twice), and whether the queue
+// is empty.  On a tree where the bookkeeping follows the model this is a function of the
+// model state and adds no states; where it does not, the two states are kept apart and
+// both are explored further (a merged state would hide what the difference leads to).
+func implKey(w *world) string {
+	var b strings.Builder
+	for _, a := range w.ag {
+		a.JobsMtx.Lock()
+		first := map[uint32]int{}
+		b.WriteString("#")
+		for i, j := range a.Tasks {
+			k, ok := first[j.RequestID]
+			if !ok {
+				k = i
+				first[j.RequestID] = i
+			}
+			if k != i {
+				fmt.Fprintf(&b, "%d=%d,", i, k)
+			}
+		}
+		fmt.Fprintf(&b, "n%d", len(a.Tasks))
+		a.JobsMtx.Unlock()
+	}
+	return b.String()
 }
